@@ -45,4 +45,5 @@ VARIANTS = [
     V("crop-width-rejects-every-smaller-width", "src/soundevent/arrays/operations.py", "    if width >= array.sizes[dim]:", "    if width <= array.sizes[dim]:", "R17.5"),
     # G.12
     V("empty-crop-range-rejected(G.12)", "src/soundevent/arrays/operations.py", "    if start > stop:\n        raise ValueError(\n            f\"Start value {start} must be less than stop value {stop}\"\n        )", "    if start >= stop:\n        raise ValueError(\n            f\"Start value {start} must be less than stop value {stop}\"\n        )", "G.12"),
+    V("single-sample-width-rejected(G.12)", "src/soundevent/arrays/operations.py", "    if width < 1:\n        raise ValueError(\"Width must be greater than or equal to 1.\")", "    if width < 2:\n        raise ValueError(\"Width must be greater than or equal to 2.\")", "G.12"),
 ]
